@@ -107,6 +107,13 @@ def run(ctx, focus='C11'):
                 exp.append(f"ip={want_ip} ln={want_ln} cp={want_cp}")
                 dist['loader_runs_compared'] = dist.get('loader_runs_compared', 0) + 1
                 loader_compared = True
+                # ... and from the decoded text of the files themselves (`of.text`: the text layer of C07_omen_text_roundtrip in front of
+                # the same loader model) - whatever line iteration, stripping and splitting do to an n-gram shows here
+                def text_of(name, enc_):
+                    return open(os.path.join(rd, 'Omen', name), encoding=enc_, newline='').read()
+                ops.append(' '.join(['of.text', str(g['max_level']), str(g['ngram']), enc(text_of('IP.level', rule_enc)),
+                                     enc(text_of('CP.level', rule_enc)), enc(text_of('LN.level', 'ascii'))]))
+                exp.append(f"ip={want_ip} ln={want_ln} cp={want_cp}")
         except (OSError, UnicodeError, KeyError):
             pass
         # the guesser's view: enumerate levels while they stay small
